@@ -445,7 +445,7 @@ func (p *Printer) Block(b *Block, col int) []string {
 		for i := p.choose("blank-lines-before", 3); i > 0; i-- {
 			out = append(out, "")
 		}
-		switch p.choose("comment-before", 5) {
+		switch p.choose("comment-before", 6) {
 		case 1:
 			out = append(out, ind+"// c")
 		case 2:
@@ -454,6 +454,9 @@ func (p *Printer) Block(b *Block, col int) []string {
 			out = append(out, ind+"/* c */")
 		case 4:
 			out = append(out, ind+"/* c", ind+"   c */")
+		case 5:
+			// stars next to the end mark, an even and an odd run (what is INSIDE a comment must not matter)
+			out = append(out, ind+"/** c **/", ind+"/****/", ind+"/* * / ***/")
 		}
 		out = append(out, ind+ls[0])
 		out = append(out, ls[1:]...)
@@ -560,7 +563,7 @@ func (p *Printer) armsDecor(d *doc, col int) {
 		d.lines = append(d.lines, "")
 	}
 	ind := strings.Repeat(" ", col)
-	switch p.choose("comment-before", 5) {
+	switch p.choose("comment-before", 6) {
 	case 1:
 		d.lines = append(d.lines, ind+"// c")
 	case 2:
@@ -569,6 +572,8 @@ func (p *Printer) armsDecor(d *doc, col int) {
 		d.lines = append(d.lines, ind+"/* c */")
 	case 4:
 		d.lines = append(d.lines, ind+"/* c", ind+"   c */")
+	case 5:
+		d.lines = append(d.lines, ind+"/** c **/", ind+"/****/", ind+"/* * / ***/")
 	}
 }
 
